@@ -1,3 +1,257 @@
-From UV Require Import Base.Common Model.Padding Model.Marshal.
-Example C05_placeholder : boring_padding_style 300 = (208, true).
+(* C05 — Padding makes the ClientHello length follow the declared padding policy.
+   Property theorems only; each is closed by lemmas of Proofs/MarshalP.v.
+
+   Reading guide.  [marshal_client_hello bbs h es] is the model of
+   UConn.MarshalClientHelloNoECH over header fields h and abstract extensions es
+   ([bbs]: spare capacity offered by bytes.Buffer, any function).  Hypotheses
+   common to the theorems: [hdr_ok h] (32-byte random, enforced by ApplyPreset),
+   [aext_ok e] (a non-padding extension emits Len() fixed bytes whenever it is
+   given room), and the extension list written as  pre ++ APad pol st :: post
+   with no padding extension in pre/post, i.e. exactly one padding extension at
+   an arbitrary position, in an arbitrary prior state st.
+   [unpadded_len h es] is the argument of paddingExt.Update: the length of the
+   whole handshake message without the padding extension. *)
+From Coq Require Import ZifyBool ZifyNat ZifyN.
+From UV Require Import Base.Common Model.Padding Model.Marshal Proofs.MarshalP.
+
+(* BoringSSL style, unpadded length L with 255 < L < 512: the message is the
+   unpadded message (a ++ b, L bytes) with a padding extension 00 15 00 <body>
+   0^body inserted, and either at least 5 bytes were missing and the total is
+   exactly 512, or fewer than 5 were missing (L = 508..511) and the body is 1
+   byte (total L+5 = 513..516). *)
+Theorem C05_boring_512 : forall bbs h pre st post,
+  hdr_ok h -> Forall aext_ok pre -> Forall aext_ok post -> nopad pre -> nopad post ->
+  let es := pre ++ APad PolBoring st :: post in
+  let L := unpadded_len h es in
+  255 < L -> L < 512 ->
+  exists a b body,
+    marshal_client_hello bbs h es = Ok (a ++ ([0; 21; 0; body] ++ zeros body) ++ b) /\
+    len a + len b = L /\
+    ((5 <= 512 - L /\ len (a ++ ([0; 21; 0; body] ++ zeros body) ++ b) = 512) \/
+     (512 - L < 5 /\ body = 1 /\ len (a ++ ([0; 21; 0; body] ++ zeros body) ++ b) = L + 5)).
+Proof.
+  intros bbs h pre st post Hh Hok1 Hok2 Hn1 Hn2 es L Hlo Hhi.
+  destruct (marshal_onepad_split bbs h pre PolBoring st post Hh Hok1 Hok2 Hn1 Hn2) as (a & b & Hm & Hab & Hlen).
+  fold es in Hm, Hab, Hlen. fold L in Hm, Hab, Hlen.
+  cbn [pad_update] in Hm, Hlen. rewrite (boring_in_range L Hlo Hhi) in Hm, Hlen.
+  unfold pad_emit, pad_len in Hm, Hlen. cbn [p_will p_len] in Hm, Hlen.
+  set (body := if 5 <=? 512 - L then 512 - L - 4 else 1) in *.
+  assert (Hb : body < 256) by (unfold body; destruct (5 <=? 512 - L); lia).
+  assert (H1 : u8 (body / 256) = 0) by (unfold u8; rewrite (N.div_small body 256 Hb); reflexivity).
+  assert (H2 : u8 body = body) by (unfold u8; apply N.mod_small; exact Hb).
+  rewrite H1, H2 in Hm, Hlen.
+  exists a, b, body. split; [exact Hm|]. split; [exact Hab|].
+  unfold body in *. destruct (5 <=? 512 - L) eqn:E; [left | right]; repeat split; lia.
+Qed.
+Print Assumptions C05_boring_512.
+
+(* Any other unpadded length: the function emits the header and the other
+   extensions' bytes and nothing else — no padding extension — L bytes in all. *)
+Theorem C05_boring_else : forall bbs h pre st post,
+  hdr_ok h -> Forall aext_ok pre -> Forall aext_ok post -> nopad pre -> nopad post ->
+  let es := pre ++ APad PolBoring st :: post in
+  let L := unpadded_len h es in
+  L <= 255 \/ 512 <= L ->
+  exists o1 o2, Forall2 emits pre o1 /\ Forall2 emits post o2 /\
+    marshal_client_hello bbs h es =
+      Ok (header_bytes h (L - 4) ++ u16be (u16 (total_len pre + total_len post)) ++ concat o1 ++ concat o2) /\
+    len (header_bytes h (L - 4) ++ u16be (u16 (total_len pre + total_len post)) ++ concat o1 ++ concat o2) = L.
+Proof.
+  intros bbs h pre st post Hh Hok1 Hok2 Hn1 Hn2 es L Hout.
+  destruct (marshal_onepad bbs h pre PolBoring st post Hh Hok1 Hok2 Hn1 Hn2) as (o1 & o2 & H1 & H2 & Hm).
+  fold es in Hm. fold L in Hm. cbn [pad_update] in Hm. rewrite (boring_out_of_range L Hout) in Hm.
+  unfold pad_emit, pad_len in Hm. cbn [p_will p_len app] in Hm.
+  assert (HL : L = header_length h + 4 + (total_len pre + total_len post) + 2) by (apply unpadded_len_one; assumption).
+  rewrite N.add_0_r in Hm.
+  replace (header_length h + (2 + (total_len pre + total_len post))) with (L - 4) in Hm by lia.
+  exists o1, o2. split; [exact H1|]. split; [exact H2|]. split; [exact Hm|].
+  rewrite !len_app, len_u16be, (len_header_bytes h _ Hh), (emits_total _ _ H1), (emits_total _ _ H2). lia.
+Qed.
+Print Assumptions C05_boring_else.
+
+(* Padding bodies are all zero, for every policy and prior state: whatever the
+   padding extension contributes to the message is [pad_emit] of its updated
+   state — nothing, or 00 15 <len16> followed by PaddingLen zero bytes.  (The
+   model's Read writes only the four header bytes; the zeros are the untouched
+   part of the fresh bufio buffer, which the proof shows is never flushed before
+   the padding extension is reached.) *)
+Theorem C05_pad_zero : forall bbs h pre pol st post,
+  hdr_ok h -> Forall aext_ok pre -> Forall aext_ok post -> nopad pre -> nopad post ->
+  let es := pre ++ APad pol st :: post in
+  let st' := pad_update pol st (unpadded_len h es) in
+  exists a b, marshal_client_hello bbs h es = Ok (a ++ pad_emit st' ++ b) /\
+    len a + len b = unpadded_len h es /\
+    pad_emit st' = if p_will st' then [0; 21; u8 (p_len st' / 256); u8 (p_len st')] ++ zeros (p_len st') else [].
+Proof.
+  intros bbs h pre pol st post Hh Hok1 Hok2 Hn1 Hn2 es st'.
+  destruct (marshal_onepad_split bbs h pre pol st post Hh Hok1 Hok2 Hn1 Hn2) as (a & b & Hm & Hab & _).
+  exists a, b. split; [exact Hm|]. split; [exact Hab | reflexivity].
+Qed.
+Print Assumptions C05_pad_zero.
+
+(* ... and this rests on the buffer being zeroed: the extension's Read leaves
+   the body bytes as it found them. *)
+Theorem C05_pad_read_zeroed_buffer : forall st k, pad_len st <= k -> pad_read st (zeros k) = Ok (pad_emit st).
+Proof. exact pad_read_zeros. Qed.
+Print Assumptions C05_pad_read_zeroed_buffer.
+
+(* The padding extension is never duplicated: two of them anywhere in the list
+   make the function return the error, whatever else the list holds. *)
+Theorem C05_pad_unique : forall bbs h a p1 s1 b p2 s2 c,
+  marshal_client_hello bbs h (a ++ APad p1 s1 :: b ++ APad p2 s2 :: c) = Err E_MULTI_PADDING.
+Proof.
+  intros. unfold marshal_client_hello, marshal_prepare. rewrite find_padding_two. reflexivity.
+Qed.
+Print Assumptions C05_pad_unique.
+
+(* Length, part 1: whatever the extensions do (even a Read that disagrees with
+   Len), a returned message has exactly the announced length 4 + helloLen. *)
+Theorem C05_marshal_len : forall bbs h es raw,
+  marshal_client_hello bbs h es = Ok raw ->
+  exists p, marshal_prepare h es = Ok p /\ len raw = 4 + pr_hello_len p.
+Proof. exact marshal_len_any. Qed.
+Print Assumptions C05_marshal_len.
+
+(* Length, part 2: for any list of extensions whose Read returns exactly Len()
+   bytes and at most one padding extension, the function succeeds and every
+   length prefix is the length of what follows it (narrowed as in the code:
+   uint24, uint8, uint16), each extension contributing exactly a_len bytes. *)
+Theorem C05_marshal_framing : forall bbs h es p,
+  hdr_ok h -> Forall aext_ok es -> marshal_prepare h es = Ok p ->
+  exists body eb outs,
+    marshal_client_hello bbs h es = Ok ([typeClientHello] ++ u24be (len body) ++ body) /\
+    body = u16be (h_vers h) ++ h_random h
+           ++ [u8 (len (h_sid h))] ++ h_sid h
+           ++ u16be (u16 (len (suites_bytes (h_suites h)))) ++ suites_bytes (h_suites h)
+           ++ [u8 (len (h_comp h))] ++ h_comp h
+           ++ match es with [] => [] | _ => u16be (u16 (len eb)) ++ eb end /\
+    eb = concat outs /\
+    Forall2 (fun e o => len o = a_len e) (pr_exts p) outs /\ length (pr_exts p) = length es.
+Proof.
+  intros bbs h es p Hh Hok Hp.
+  destruct (marshal_framing bbs h es p Hh Hok Hp) as (body & eb & outs & Hm & Hb & He & Hem & Hl).
+  exists body, eb, outs. repeat split; try assumption.
+  clear -Hem. induction Hem as [|e o es outs H _ IH]; constructor; [apply emits_len; exact H | exact IH].
+Qed.
+Print Assumptions C05_marshal_framing.
+
+(* The narrowing is the identity within the protocol's limits. *)
+Theorem C05_prefixes_exact : forall x, (x < 256 -> u8 x = x) /\ (x < 65536 -> u16 x = x) /\
+  (x < 16777216 -> u24be x = [x / 65536; (x / 256) mod 256; x mod 256]).
+Proof.
+  intros x. split; [|split]; intros H.
+  - apply N.mod_small. exact H.
+  - apply N.mod_small. exact H.
+  - unfold u24be, u8. f_equal. apply N.mod_small.
+    apply N.div_lt_upper_bound; lia.
+Qed.
+Print Assumptions C05_prefixes_exact.
+
+(* Fingerprinted capture.  The capture is a record (5-byte header) holding a
+   ClientHello with a NON-EMPTY padding extension (body p >= 1).  FromRaw parses
+   its extensions (padding: BoringPaddingStyle, state st) and installs
+   AlwaysPadToLen(len(raw)-5) on it.  Re-applied on a connection whose unpadded
+   length equals the capture's (same server-name length, same per-connection
+   sizes), the marshalled message has the captured length. *)
+Theorem C05_fp_length : forall bbs h pre st post rawlen p,
+  hdr_ok h -> Forall aext_ok pre -> Forall aext_ok post -> nopad pre -> nopad post ->
+  let es := from_raw_install rawlen (pre ++ APad PolBoring st :: post) in
+  1 <= p ->
+  rawlen = 5 + (unpadded_len h es + 4 + p) ->
+  exists raw, marshal_client_hello bbs h es = Ok raw /\ 5 + len raw = rawlen.
+Proof.
+  intros bbs h pre st post rawlen p Hh Hok1 Hok2 Hn1 Hn2 es Hp Hraw.
+  unfold es in *. rewrite (from_raw_install_one rawlen pre PolBoring st post Hn1) in *.
+  destruct (marshal_onepad_split bbs h pre (from_raw_policy rawlen) st post Hh Hok1 Hok2 Hn1 Hn2) as (a & b & Hm & _ & Hlen).
+  eexists. split; [exact Hm|]. rewrite Hlen. unfold from_raw_policy in *. rewrite pad_len_always.
+  set (U := unpadded_len h (pre ++ APad (PolAlways (Z.of_N rawlen - 5)) st :: post)) in *.
+  destruct (Z.of_N U <? Z.of_N rawlen - 5)%Z eqn:E1; [|lia].
+  destruct (5 <=? Z.of_N rawlen - 5 - Z.of_N U)%Z eqn:E2; lia.
+Qed.
+Print Assumptions C05_fp_length.
+
+(* More generally the fingerprinted spec pads to the captured length whenever
+   at least 5 bytes are missing (e.g. a shorter server name) ... *)
+Theorem C05_fp_pads_to_captured_length : forall bbs h pre st post rawlen,
+  hdr_ok h -> Forall aext_ok pre -> Forall aext_ok post -> nopad pre -> nopad post ->
+  let es := from_raw_install rawlen (pre ++ APad PolBoring st :: post) in
+  unpadded_len h es + 5 + 5 <= rawlen ->
+  exists raw, marshal_client_hello bbs h es = Ok raw /\ 5 + len raw = rawlen.
+Proof.
+  intros bbs h pre st post rawlen Hh Hok1 Hok2 Hn1 Hn2 es Hroom.
+  unfold es in *. rewrite (from_raw_install_one rawlen pre PolBoring st post Hn1) in *.
+  destruct (marshal_onepad_split bbs h pre (from_raw_policy rawlen) st post Hh Hok1 Hok2 Hn1 Hn2) as (a & b & Hm & _ & Hlen).
+  eexists. split; [exact Hm|]. rewrite Hlen. unfold from_raw_policy in *. rewrite pad_len_always.
+  set (U := unpadded_len h (pre ++ APad (PolAlways (Z.of_N rawlen - 5)) st :: post)) in *.
+  destruct (Z.of_N U <? Z.of_N rawlen - 5)%Z eqn:E1; [|lia].
+  destruct (5 <=? Z.of_N rawlen - 5 - Z.of_N U)%Z eqn:E2; lia.
+Qed.
+Print Assumptions C05_fp_pads_to_captured_length.
+
+(* ... and "non-empty" cannot be dropped from the property: a capture whose
+   padding extension has an EMPTY body is reproduced one byte too long. *)
+Theorem C05_fp_empty_padding_grows : forall bbs h pre st post rawlen,
+  hdr_ok h -> Forall aext_ok pre -> Forall aext_ok post -> nopad pre -> nopad post ->
+  let es := from_raw_install rawlen (pre ++ APad PolBoring st :: post) in
+  rawlen = 5 + (unpadded_len h es + 4 + 0) ->
+  exists raw, marshal_client_hello bbs h es = Ok raw /\ 5 + len raw = rawlen + 1.
+Proof.
+  intros bbs h pre st post rawlen Hh Hok1 Hok2 Hn1 Hn2 es Hraw.
+  unfold es in *. rewrite (from_raw_install_one rawlen pre PolBoring st post Hn1) in *.
+  destruct (marshal_onepad_split bbs h pre (from_raw_policy rawlen) st post Hh Hok1 Hok2 Hn1 Hn2) as (a & b & Hm & _ & Hlen).
+  eexists. split; [exact Hm|]. rewrite Hlen. unfold from_raw_policy in *. rewrite pad_len_always.
+  set (U := unpadded_len h (pre ++ APad (PolAlways (Z.of_N rawlen - 5)) st :: post)) in *.
+  destruct (Z.of_N U <? Z.of_N rawlen - 5)%Z eqn:E1; [|lia].
+  destruct (5 <=? Z.of_N rawlen - 5 - Z.of_N U)%Z eqn:E2; lia.
+Qed.
+Print Assumptions C05_fp_empty_padding_grows.
+
+(* ---- non-vacuity: concrete inputs meeting the hypotheses ---- *)
+
+Definition ex_hdr : hello_hdr :=
+  {| h_vers := 771; h_random := zeros 32; h_sid := zeros 32; h_suites := [4865; 4866; 49195]; h_comp := [0] |}.
+Definition ex_pre : list aext := [fixed_ext false ([0; 0; 0; 6] ++ zeros 6); fixed_ext false ([74; 74; 0; 200] ++ repeat 7 200)].
+Definition ex_post : list aext := [fixed_ext false [0; 23; 0; 0]].
+Definition ex_st : pad_state := {| p_len := 77; p_will := true |}.
+
+Example C05_ex_hyps : hdr_ok ex_hdr /\ Forall aext_ok ex_pre /\ Forall aext_ok ex_post /\ nopad ex_pre /\ nopad ex_post.
+Proof.
+  split; [reflexivity|]. split; [repeat constructor; apply fixed_ext_ok|]. split; [repeat constructor; apply fixed_ext_ok|].
+  split; repeat constructor.
+Qed.
+
+(* unpadded 301 bytes -> padded to exactly 512 with a 207-byte body *)
+Example C05_ex_boring_512 :
+  unpadded_len ex_hdr (ex_pre ++ APad PolBoring ex_st :: ex_post) = 301 /\
+  match marshal_client_hello (fun _ => 512) ex_hdr (ex_pre ++ APad PolBoring ex_st :: ex_post) with
+  | Ok raw => len raw = 512 /\ take 4 (drop 297 raw) = [0; 21; 0; 207] /\ drop 301 raw = zeros 207 ++ [0; 23; 0; 0]
+  | _ => False
+  end.
+Proof. vm_compute. repeat split. Qed.
+
+(* 510 bytes unpadded: the 1-byte body, 515 in all *)
+Example C05_ex_one_byte :
+  let pre := [fixed_ext false ([74; 74; 1; 163] ++ repeat 7 419)] in
+  unpadded_len ex_hdr (pre ++ APad PolBoring ex_st :: ex_post) = 510 /\
+  match marshal_client_hello (fun _ => 512) ex_hdr (pre ++ APad PolBoring ex_st :: ex_post) with
+  | Ok raw => len raw = 515 /\ drop 506 raw = [0; 21; 0; 1; 0] ++ [0; 23; 0; 0]
+  | _ => False
+  end.
+Proof. vm_compute. repeat split. Qed.
+
+(* a capture of 5+301+4+9 bytes re-applied at the same unpadded size *)
+Example C05_ex_fp :
+  let es := from_raw_install 319 (ex_pre ++ APad PolBoring ex_st :: ex_post) in
+  319 = 5 + (unpadded_len ex_hdr es + 4 + 9) /\
+  match marshal_client_hello (fun _ => 512) ex_hdr es with Ok raw => 5 + len raw = 319 | _ => False end.
+Proof. vm_compute. split; reflexivity. Qed.
+
+(* the zeroed buffer matters: on a dirty slice the model's Read returns the dirt *)
+Example C05_ex_dirty_buffer :
+  pad_read {| p_len := 3; p_will := true |} (repeat 9 10) = Ok [0; 21; 0; 3; 9; 9; 9].
+Proof. reflexivity. Qed.
+
+(* two padding extensions *)
+Example C05_ex_dup :
+  marshal_client_hello (fun _ => 512) ex_hdr (ex_pre ++ APad PolBoring ex_st :: ex_post ++ APad PolNone ex_st :: []) = Err E_MULTI_PADDING.
 Proof. reflexivity. Qed.
